@@ -60,10 +60,23 @@ def d2(cx: Cx, ob: Ob) -> None:
             if ev.kind == "store" and op(ev.a) == "attr" and ev.a[2] in (CANON | LISTS) and op(ev.a[1]) != "param" or (
                 ev.kind == "store" and op(ev.a) == "attr" and ev.a[2] in (CANON | LISTS) and m.self_name and ev.a[1] != ("param", m.self_name)
             ):
+                if m.name == "add_record" and ev.a[2] == "pattern" and any(e2.kind == "expr" and self_call(e2.a, ("param", m.self_name), "_index") and e2.a[2][:1] == (ev.a[1],) and e2.line >= ev.line for e2 in ctx.path.events):
+                    # the merged record adopts the incoming pattern and is re-indexed: records and pattern_map agree
+                    ob.site(f"{where(m, ev.line)} {m.qualname}", "pattern adopted by the merged record, then re-indexed")
+                    continue
                 if m.name != MERGE:
                     ob.violate(m.qualname, where(m, ev.line), f"{m.name} assigns Record field `{show(ev.a)[:50]}`; only _merge may change records the converter owns", detail=f"record-store:{ev.a[2]}")
             if ev.kind == "expr" and op(ev.a) == "call" and callee_name(ev.a) in MUTATORS:
                 r = ev.a[1][1] if op(ev.a[1]) == "attr" else None
+                if op(r) == "attr" and r[2] in LISTS and m.name != MERGE and m.name not in ("add_record", "_index", "__init__"):
+                    # another public mutator (not add_record / _merge): it keeps the converter consistent only if it
+                    # re-indexes the record it changed on every path - and refuses names that are in use, which is
+                    # not a question of shape
+                    me_ = ("param", m.self_name)
+                    later = [e2 for e2 in ctx.path.events if e2.line >= ev.line and e2.kind == "expr" and self_call(e2.a, me_, "_index") and e2.a[2][:1] == (r[1],)]
+                    if later and not any(g.kind == "guard" and g.line > ev.line for g in ctx.path.events if g.line <= later[-1].line):
+                        ob.undecide(f"{m.name} changes `{show(r)[:40]}` of a record the converter owns and re-indexes it: a second way of changing owned records next to add_record/_merge - that it refuses names already in use is not decided")
+                        continue
                 if op(r) == "attr" and r[2] in LISTS and m.name != MERGE:
                     ob.violate(m.qualname, where(m, ev.line), f"{m.name} mutates `{show(r)[:50]}` in place; only _merge may change records the converter owns", detail=f"record-mutate:{r[2]}")
 
@@ -397,6 +410,13 @@ def check_add_record_pairing(cx: Cx, ob: Ob) -> None:
                 ob.site(f"{where(fn, line)} {fn.qualname}", f"{how} -> _index")
                 if not done and normal and how == "merge" and _merge_takes_care(cx, ob, fn, p, me):
                     continue
+                if not done and normal and how == "merge":
+                    # re-indexing skipped on the strength of a look into the lookup tables themselves ("they already
+                    # hold every name of the merged record"): sound if the test covers every table - not a shape
+                    tab_guards = [g for g in p.events if g.kind == "guard" and g.line >= line and g.b is False and any(op(x) == "attr" and x[1] == me and x[2] in TABLES for x in subterms(g.a)) and any(x == rec for x in subterms(g.a))]
+                    if tab_guards:
+                        ob.undecide(f"add_record skips _index after a merge when not `{show(tab_guards[0].a)[:60]}` (the tables are asked whether they already hold the merged record's names): that the test covers every table and every name is not decided")
+                        continue
                 if not done and normal:
                     conds = [("" if g.b else "not ") + show(g.a)[:60] for g in p.events if g.kind == "guard"]
                     ob.violate(
@@ -624,9 +644,20 @@ def check_match_record(cx: Cx, ob: Ob) -> None:
     lp = rec_loops[0]
     recv = lp.a
 
+    excused: list = []
+
     def early(paths) -> int | None:
         for p in paths:
             if p.out is not None and p.out[0] in ("break", "return"):
+                gs = [g for g in p.events if g.kind == "guard"]
+                # an exit that a caller switches on (a parameter other than case_sensitive), or that is taken only
+                # after the lookup tables were asked about every other name: whether the remaining records can
+                # still matter is a question about the callers / the tables, not about this loop
+                by_param = [g for g in gs if any(op(x) == "param" and x[1] not in ("case_sensitive", fn.self_name, fn.params[1].name) for x in subterms(g.a))]
+                by_tables = [g for g in gs if any(op(x) == "attr" and x[1] == me and x[2] in TABLES for x in subterms(g.a))]
+                if by_param or by_tables:
+                    excused.append((by_param or by_tables)[0])
+                    continue
                 return p.events[-1].line if p.events else lp.line
             for ev in p.events:
                 if ev.kind == "loop" and ev.body:
@@ -643,12 +674,17 @@ def check_match_record(cx: Cx, ob: Ob) -> None:
                 detail="return-before-scan",
             )
     e = early(lp.body)
+    if excused:
+        ob.undecide(f"_match_record can leave the scan of self.records early when `{show(excused[0].a)[:60]}` (a switch of the callers / a look into the lookup tables): that no second matching record is missed then is not decided")
     if e is not None:
         ob.violate(fn.qualname, where(fn, e), "_match_record leaves the scan of self.records early: a record overlapping two existing records is reported as a single match", detail="early-exit")
     guards = []
+    exact_ok = set()  # comparison terms evaluated only where case_sensitive is known to be true
     for ev, ctx in s.walk():
         if ev.kind == "guard" and ctx.loops and ctx.loops[0] is lp:
             guards.append(ev)
+            if any(g.kind == "guard" and g.a == ("param", "case_sensitive") and g.b is True for g in ctx.guards):
+                exact_ok.update(x for x in subterms(ev.a) if op(x) == "cmp")
     comps = pair_compare_cover(prov, [g.a for g in guards])
     seen = set()
     for x, y, how, c in comps:
@@ -666,6 +702,8 @@ def check_match_record(cx: Cx, ob: Ob) -> None:
             cs = kw.get("case_sensitive") or (c[2][2] if len(c[2]) > 2 else None)
             if cs != ("param", "case_sensitive"):
                 ob.violate(fn.qualname, fn.where, f"comparison external.{a[1]} ~ record.{b[1]} does not use the caller's case_sensitive", detail=f"case:{a[1]}~{b[1]}")
+        elif c in exact_ok:
+            pass  # exact comparison on a path taken only when case_sensitive is true
         else:
             ob.violate(fn.qualname, fn.where, f"comparison external.{a[1]} ~ record.{b[1]} uses `{how}` and ignores case_sensitive", detail=f"raw-compare:{a[1]}~{b[1]}")
     # "normalise once, then test membership":  n(x) in {n(y) for y in <names of the other record>}  with n the
